@@ -21,11 +21,21 @@ def evaluate(mod, cases, work, tag='main'):
     terms, idx = [], []
     pyres = []
     for i, (c, o) in enumerate(zip(cases, obs)):
-        t = mod.coq_term(c, o) if hasattr(mod, 'coq_term') else None
+        # an observation the oracle / term builder cannot digest (unexpected shape of the library's answer) is
+        # itself evidence that the behaviour changed: judged as a failed case with the exception as the reason
+        try:
+            t = mod.coq_term(c, o) if hasattr(mod, 'coq_term') else None
+        except Exception as e:
+            t = None
+            pyres.append(dict(s_ok=False, f_ok=False, why='observation not expressible for the model (%s: %s)' % (type(e).__name__, str(e)[:150])))
+            continue
         if t is not None:
             terms.append(t)
             idx.append(i)
-        pyres.append(mod.py_check(c, o) if hasattr(mod, 'py_check') else None)
+        try:
+            pyres.append(mod.py_check(c, o) if hasattr(mod, 'py_check') else None)
+        except Exception as e:
+            pyres.append(dict(s_ok=False, why='python oracle could not judge the observation (%s: %s)' % (type(e).__name__, str(e)[:150])))
     coq_err = None
     cv = {}
     if terms:
